@@ -16,3 +16,5 @@ mod spsc_conc;
 mod locks;
 #[cfg(kani)]
 mod spsc_async;
+#[cfg(kani)]
+mod oneshot;
